@@ -202,7 +202,7 @@ class C04(Prop):
                     for sc in scripts:
                         yield {"mode": mode, "retry": cfg, "method": method, "script": sc, "keepalive": False,
                                "kind": "exh"}
-        nrand = 800000 if deep else 40000
+        nrand = 500000 if deep else 40000
         for _ in range(nrand):
             n = rng.choice([1, 2, 2, 3, 3, 4, 5, 5])
             keep = rng.random() < 0.25
@@ -559,6 +559,16 @@ class C04(Prop):
         elif rk == "err":
             if last is None or last[0] == "s":
                 fail("exhaustion-surface", f"raised {rv} after {otok(last) if last else None}")
+
+    def flush(self, res, pending, tag=""):
+        """The engine stops a shard after 20 disagreements and the runner only escalates the search
+        when there is *no* failure at all — with known findings always present that would end the
+        failing-input search early.  Keep at most 20 disagreements (the rest is counted) so that
+        every case is still run through the oracle."""
+        super().flush(res, pending, tag)
+        if len(res.disagreements) > 20:
+            res.bump("disagreements_not_recorded", len(res.disagreements) - 20)
+            del res.disagreements[20:]
 
     def nontrivial(self, case, impl_out):
         for o in impl_out:
